@@ -1,10 +1,10 @@
 package main
 
 import (
-	"strconv"
 	"fmt"
 	"go/token"
 	"go/types"
+	"strconv"
 	"strings"
 
 	"golang.org/x/tools/go/ssa"
@@ -34,7 +34,12 @@ func (x *Exec) doCall(fr *Frame, st *State, c *ssa.CallCommon, args []Value, pos
 	}
 	ms := x.matchSites(root, fr, st, key, full, args, pos)
 	if isBuiltin {
-		return x.builtin(fr, st, bi, c, args, rt, pos)
+		res := x.builtin(fr, st, bi, c, args, rt, pos)
+		if len(ms) > 0 {
+			// updates and binds of a site on a builtin see its result (e.g. the slice append returns)
+			x.applySiteUpdates(root, fr, st, ms, res, nil, pos)
+		}
+		return res
 	}
 	// ---- effect of the call ----
 	callee := c.StaticCallee()
